@@ -61,6 +61,16 @@ CHECKS["C13"] = ("exploration", "4 C13",
     "runtime monitoring: explicit-loop longdouble oracle for expand / collapse / concat on harness-built compact datasets and real collocate() results; structural post-condition (valid indices, every point used) on every compact dataset produced anywhere",
     "Hundreds of compact datasets (one-to-many / many-to-one, shuffled pairs, channels, NaNs, >= 1000 pairs fallback path, both references, custom collapser) and lists of 1-5 datasets for concat.")
 
+CHECKS["C05"] = ("exploration", "4 C05",
+    "runtime monitoring: brute-force oracle over the union of all points vs everything yielded / written by collocate_filesets under process counts, bundle modes, output kinds, file splits, read delays, slow consumer and injected parent-loop delays (sys.monitoring); conservation monitor inside the forked workers (pairs found == pairs flushed); mechanism classifier for the open output-name-collision finding",
+    "Dozens of fileset pairs x ~5 runs each with 1-4 worker processes; id pairs carried in the data are compared as multisets with the oracle; written files are checked for name = time span and read back.")
+CHECKS["C09"] = ("exploration", "4 C09",
+    "runtime monitoring: the real converters executed on fractions.Fraction arguments (exact identities), longdouble Murphy-Koop / IFS-blend oracle with derived bounds, nextafter grids around both branch temperatures, icontract postconditions",
+    "180 000 exact rational identities and millions of float evaluations per quick run; container forms float / 0-d / arrays.")
+CHECKS["C14"] = ("exploration", "4 C14",
+    "runtime monitoring: exact rational integral of the piecewise-linear interpolant vs integrate_column (any rank/axis/layout), relational checks, convergence ratios of both IWV forms on refined grids, analytic brackets for pressure2height, ISA table cross-check; icontract postconditions",
+    "Hundreds of thousands of lanes, all ranks 1-4 and axes, 2..1e4 levels; convergence must shrink >= 3.5x per doubling.")
+
 NOT_YET = {}
 
 
